@@ -112,7 +112,11 @@ TCall ==
                THEN ex' = m.s /\ UNCHANGED <<lost, viol>>
                ELSE /\ viol' = Note(Flagged([l |-> l,
                                      \* a kept block that states another parameter set than the one whose hints are applied to it: C04 too
-                                     prop |-> IF "xcnt" \in DOMAIN ev /\ ev.xcnt.bpi # XCnt(m.s).bpi THEN "C04,C12,C13,C01" ELSE "C12,C13,C01",
+                                     \* ... or a block that took in an address event / malformed message the hints in force exclude
+                                     prop |-> IF ("xcnt" \in DOMAIN ev /\ ev.xcnt.bpi # XCnt(m.s).bpi)
+                                                 \/ ev.cnt.aec > Cnt(m.s).aec \/ ev.cnt.mm > Cnt(m.s).mm
+                                                 \/ ("xcnt" \in DOMAIN ev /\ (ev.xcnt.aec > XCnt(m.s).aec \/ ev.xcnt.mm > XCnt(m.s).mm))
+                                              THEN "C04,C12,C13,C01" ELSE "C12,C13,C01",
                                      what |-> IF "xcnt" \in DOMAIN ev /\ ev.xcnt.bpi # XCnt(m.s).bpi
                                               THEN "call " \o ev.op.op \o ": the block kept by the application states another Block parameters set than the one it is filled under"
                                               ELSE "call " \o ev.op.op \o ": return value or counters differ from the exporter state machine",
@@ -140,7 +144,9 @@ BlockViol(d, b, tree, bp, who, ln) ==
         statsOK == IF b.stats = NoStats THEN "stats" \notin DOMAIN d
                    ELSE "stats" \in DOMAIN d /\ d.stats = b.stats[1]
     IN IF ~cntOK THEN
-          <<[l |-> ln, prop |-> "C01,C12,C13", what |-> who \o ": block holds a different number of records (or another parameter index) than were buffered into it",
+          \* more malformed messages / address events than the hints in force let through: C04 as well
+          <<[l |-> ln, prop |-> IF Len(d.mms) > Len(b.mms) \/ Len(d.aecs) > Len(b.aecs) THEN "C01,C12,C13,C04" ELSE "C01,C12,C13",
+             what |-> who \o ": block holds a different number of records (or another parameter index) than were buffered into it",
              got |-> <<Len(d.qrs), Len(d.aecs), Len(d.mms), d.bpi>>, want |-> <<Len(b.qrs), Len(b.aecs), Len(b.mms), b.bpi>>]>>
        ELSE (IF extraQ # {} THEN
                <<[l |-> ln, prop |-> "C04,C01", what |-> who \o ": a query/response (or a resource record of one of its sections) carries a member its storage hint excludes",
